@@ -1,7 +1,7 @@
 ------------------------------ MODULE MC_Table ------------------------------
 (* C05 on the model: one state per (columns, height, friendly count, query set, corruption). *)
 EXTENDS TableCommitment, TLC, Json
-CONSTANTS MaxHeight, MaxCols, Emit
+CONSTANTS MaxHeight, MaxCols, Emit, WideCols    \* WideCols: a few wide rows (more than 16 cells), explored on a reduced catalogue
 VARIABLES ncols, height, nvf, qidx, values, auth, root, corrupt
 vars == <<ncols, height, nvf, qidx, values, auth, root, corrupt>>
 
@@ -12,7 +12,8 @@ RECURSIVE FlatRows(_, _, _)
 FlatRows(rows, qs, i) == IF i > Len(qs) THEN <<>> ELSE rows[qs[i]] \o FlatRows(rows, qs, i + 1)
 
 Init ==
-  \E c \in 1..MaxCols, h \in 0..MaxHeight, n \in 0..(MaxHeight + 3) :
+  \E c \in (1..MaxCols) \cup WideCols, h \in 0..MaxHeight, n \in 0..(MaxHeight + 3) :
+  (c \in WideCols => (h = 1 /\ n \in {0, 2, 3})) /\
   \E Q \in (SUBSET (0..(2^h - 1))) \ {{}} :
     LET qs == SortSet(Q)
         rows == Rows(h, c)
@@ -26,6 +27,11 @@ Init ==
              \cup {<<"dropcell", i, 0>> : i \in 1..N}
              \cup {<<"auth", i, 0>> : i \in 1..Len(a)}
              \cup {<<"cols", cc, 0>> : cc \in (1..(MaxCols + 1)) \ {c}} :  \* declared column count differs
+      /\ (c \in WideCols =>                                   \* reduced catalogue for wide rows: first / 16th / 17th / last cell
+            \/ x[1] \in {"none", "addcell", "root", "extra", "auth"}
+            \/ (x[1] \in {"cell", "dropcell"} /\ x[2] \in {1, 16, 17, N})
+            \/ (x[1] = "swap" /\ x[2] \in {1, 16} /\ x[3] \in {17, N})
+            \/ (x[1] = "cols" /\ x[2] = 1))
       /\ ncols = IF x[1] = "cols" THEN x[2] ELSE c
       /\ height = h /\ nvf = n /\ qidx = qs /\ corrupt = x
       /\ values = CASE x[1] = "cell" -> [vals EXCEPT ![x[2]] = Bad(x[2])]
